@@ -669,7 +669,8 @@ def run_check(pid, tier, seed, mc_cfgs, profiles, thorough_profiles, assumptions
         if r["violated"]:
             raise vlib.ToolError("design model violates %s in %s (spec needs correction)" % (r["violated"], cfg))
         vlib.require_coverage(r, list((mc_actions_by_module or {}).get(mod, mc_actions)), cfg)
-        got = vlib.tlc_printed(r["out"], "SCRIPT")
+        # (TLC's workers print in no fixed order: sort, so that a seed names the same sample of behaviours in every run)
+        got = sorted(vlib.tlc_printed(r["out"], "SCRIPT"), key=lambda g: json.dumps(g, sort_keys=True))
         vlib.log("[mc] %s: %d distinct states, %d generated, depth %d, %d scripts, %.0fs" %
                  (cfg, r["distinct"], r["states"], r["depth"], len(got), r["wall_s"]))
         if mod in MODEL_CONVERTERS:
